@@ -65,6 +65,17 @@ void containInstall() {
     for (int s : sigs) sigaction(s, &sa, nullptr);
 }
 
+void containThreadExit() {
+    if (tl_altstack) {
+        stack_t ss;
+        memset(&ss, 0, sizeof ss);
+        ss.ss_flags = SS_DISABLE;
+        sigaltstack(&ss, nullptr);
+        free(tl_altstack);
+        tl_altstack = nullptr;
+    }
+}
+
 Contained runContained(ContainedFn fn, void *arg, double wallLimitSec) {
     Frame fr;
     Frame *prev = tl_frame;
